@@ -233,6 +233,16 @@ def run_contract(name, carveouts=(), timeout_ms=10000):
                         from contracts import replay as _R
 
                         entry["replayed"] = _R.run(cdef.replay[0], cdef.replay[1], _jsonable(inputs))
+                        if not entry["replayed"] and len(cdef.replay) > 2:
+                            # witness search (DESIGN 2.5, job 3): the counter-model lives in an
+                            # abstraction; try the contract's small candidate universe on the real code
+                            for cand in getattr(_R, cdef.replay[2])():
+                                hit = _R.run(cdef.replay[0], cdef.replay[1], cand)
+                                if hit:
+                                    entry["replayed"] = hit
+                                    inputs = cand
+                                    entry["witness_search"] = True
+                                    break
                     except Exception as e:  # noqa: BLE001
                         entry["replayed"] = None
                         entry["replay_error"] = f"{type(e).__name__}: {e}"
